@@ -18,7 +18,11 @@ PROP = dict(
          "task prints in a loop for ever while main fails (4 kinds) or completes after k steps, budgets {2,3,7,100,1000000}. A third of the host-call "
          "programs declare their host functions in a second root file (compile_bytecode_with_host_funcs). At every return the "
          "accessors RuntimeStatus::is_done/error and VmGreenThread::get_pending_host_func/get_error must agree with the status "
-         "kinds. Every run: at most 20000 calls (never reporting completion or failure is a failure) and two further calls without servicing "
+         "kinds. Further streams: (quick 150 / thorough 1500) programs whose final expression statement (int/bool/string "
+         "expression, fn call, host call) is FOLLOWED by 1-4 declaration items (fn, struct, enum, #host fn used earlier): the final "
+         "value must still be that expression's value; regression of D113 (quick 15): 20-60 tasks that each fail at once, never more "
+         "than 4 threads in the run queue, and in every program no failed task may still be parked in the run queue at the end of a "
+         "call; hard regression of D44 (`let g = readline; g()` delivers the host's value, budgets 1/3/5000). Every run: at most 20000 calls (never reporting completion or failure is a failure) and two further calls without servicing "
          "after the report, which must repeat the reported status. "
          "spec_fail per call: steps_consumed <= budget, = instructions executed (hook); Done <=> main executed Stop in "
          "this call and nothing ran after it; PendingHostFunc/OutOfSteps/MainThreadError agree with the thread flags, in particular a failed main thread is reported "
@@ -41,10 +45,13 @@ PROP = dict(
     ],
     design_ref="DESIGN.md §6 C11",
     level_text="Theorems about the scheduler model Abra.Sched for every thread step function: steps <= budget and steps = "
-               "executed instructions for every state; with the main thread queued, Done is reported by exactly the call in "
+               "executed instructions for every state; under the hypothesis MainQueued (the main thread is in the run queue, no finished or "
+               "failed-task thread waits in a queue, finished_main_thread is empty - true for Runtime::new and kept by every call that "
+               "does not report completion), Done is reported by exactly the call in "
                "which main executes Stop (last executed instruction, immediate return, main kept for top()), never otherwise, "
                "whatever the other threads do; MainThreadError e exactly when main carries error e (kind from the failing "
-               "instruction); status priority; host-call protocol on a concrete stack machine (arguments in parameter order, "
+               "instruction); status priority (given the thread found by try_get_main is not finished); host-call protocol on a concrete "
+               "stack machine for the program shape `push args; HostFunc(n)` started on Runtime::new with a sufficient budget (arguments in parameter order, "
                "last on top; resume after the instruction with the host's value on top). Tied to /repo by scheduler trace "
                "validation, a host-call correspondence and direct checks of each statement on the implementation.",
     level_note="The model is validated by trace correspondence, not derived from vm.rs. Defect D44 (zero-parameter host "
